@@ -40,6 +40,10 @@ def run(ch: Checker) -> None:
     ch.rule('C09.2b', 'hand-over between chains: the request given to the handle_client_request chain (and whatever reads self.request later) is the LAST non-None value the '
                       'before_upstream_connection chain produced -- also when a later plugin of that chain returned None (two-iteration paths)', 1)
     ch.rule('C09.3', 'None suppresses: after before_upstream_connection returned None no path reaches connect_upstream; after handle_client_request returned None no path queues to upstream or client', 3)
+    ch.rule('C09.3b', 'on_request_complete queues nothing to the client before both request chains have run: every self.client.queue(...) comes after the last before_upstream_connection / '
+                      'handle_client_request call on its path (a plugin that rejects or answers itself decides alone what the client sees)', 1)
+    ch.rule('C09.2c', 'read_from_descriptors: every chunk received from the upstream passes the handle_upstream_chunk chain before it is queued for the client -- the loop over the plugins lies on '
+                      'every path from recv() to client.queue(), whatever kind of connection it is', 1)
     ch.rule('C09.4', 'HttpRequestRejected.response hands status_code, reason, headers, body to build_http_response unchanged with conn_close=True', 1)
     ch.rule('C09.5', 'lifecycle hooks are attempted on every path of the shutdown sequence, exception edges included: HttpProtocolHandler.shutdown -> plugin.on_client_connection_close (when a plugin exists); '
                      'HttpProxyPlugin.on_client_connection_close -> on_access_log chain and on_upstream_connection_close loop; HttpWebServerPlugin.on_client_connection_close -> route hooks', 4)
@@ -239,6 +243,47 @@ def run(ch: Checker) -> None:
                              'request and a later one returns None (serve locally), the rewrite is lost for every hook that follows' % (got[:90], last_good[:90]), p.describe(26))
     ch.check(bad2b is None and n2b > 0, 'C09.2b', orc2, 'hand-over before_upstream_connection -> handle_client_request',
              'the second chain starts from the last non-None result of the first on all %d two-iteration path(s)' % n2b, bad2b[0] if bad2b else 'no path runs both chains', witness=bad2b[1] if bad2b else None)
+
+    # ---------------- C09.3b no client output before the chains
+    bad3b = None
+    n3b = 0
+    for p in fpaths(g2):
+        ch.paths += 1
+        qs = [i for i, st in p.stmts() for c in walk_no_nested(st) if isinstance(c, ast.Call) and attr_chain(c.func) == 'self.client.queue']
+        hooks_i = [i for i, nd, lab in p.executed() if nd.ast is not None and nd.kind in ('stmt', 'test') for c in walk_no_nested(nd.ast)
+                   if isinstance(c, ast.Call) and isinstance(c.func, ast.Attribute) and c.func.attr in ('before_upstream_connection', 'handle_client_request')]
+        if not qs:
+            continue
+        n3b += 1
+        if hooks_i and min(qs) < max(hooks_i):
+            bad3b = ('something is queued to the client before a request hook runs (a plugin rejecting or serving the request from handle_client_request cannot take it back: the client sees '
+                     'e.g. `200 Connection established` followed by the plugin\'s 403)', p.describe(24))
+    ch.check(bad3b is None and n3b > 0, 'C09.3b', orc2, 'client output only after the chains', 'no client.queue() before the last hook call on %d path(s)' % n3b,
+             bad3b[0] if bad3b else 'on_request_complete never queues to the client', witness=bad3b[1] if bad3b else None)
+
+    # ---------------- C09.2c the upstream chunk chain runs for every chunk
+    rfd = prog.own_method('HttpProxyPlugin', 'read_from_descriptors')
+    g2c = cfg_of(rfd, prog, exc_edges=False)
+    bad2c = None
+    n2c = 0
+    for p in fpaths(g2c):
+        ch.paths += 1
+        recv_i = [i for i, st in p.stmts() for c in walk_no_nested(st) if isinstance(c, ast.Call) and attr_chain(c.func) == 'self.upstream.recv']
+        q_i = [i for i, st in p.stmts() for c in walk_no_nested(st) if isinstance(c, ast.Call) and attr_chain(c.func) == 'self.client.queue']
+        if not recv_i or not q_i:
+            continue
+        n2c += 1
+        loop_passed = False
+        for i, (nid, lab) in enumerate(p.steps):
+            nd = g2c.nodes[nid]
+            if recv_i[0] < i < q_i[0] and nd.kind == 'for' and any((attr_chain(x) or '').endswith('plugins') for x in ast.walk(nd.ast.iter)) \
+                    and _hook_call(ast.Module(body=nd.ast.body, type_ignores=[]), ('handle_upstream_chunk',)) is not None:   # type: ignore[union-attr]
+                loop_passed = True
+        if not loop_passed:
+            bad2c = ('a chunk received from the upstream is queued for the client without having been offered to the plugins\' handle_upstream_chunk hooks: on such connections no plugin '
+                     'sees (or can withhold) upstream data', p.describe(24))
+    ch.check(bad2c is None and n2c > 0, 'C09.2c', rfd, 'chunk chain on every data path', 'the plugin loop lies between recv() and client.queue() on all %d path(s)' % n2c,
+             bad2c[0] if bad2c else 'no relaying path found', witness=bad2c[1] if bad2c else None)
 
     # ---------------- C09.4
     rej = prog.class_named('HttpRequestRejected')
